@@ -66,9 +66,18 @@ def classify(prop, f, tr, trace_text):
             # never fetched again when another peer re-publishes it
             return 'S12-asset-republished-by-another-peer'
         if len(pubs) > 1:
-            # S7: one handle token for several asset events: the receiver echoes the asset as its own
-            # publication, the echo is relayed, and (S12) the peers that served it ignore later updates
-            return 'S7-asset-echo-after-overwrite'
+            # S7: one handle token for several asset events: a receiver echoes the asset as its own
+            # publication, the echo is relayed, and (S12) the peers that served it ignore later updates.
+            # Fingerprint: somebody announced the id who never published it.
+            cls = {'1': 'mesh', '2': 'image', '3': 'audio'}.get(key[0])
+            for ev in tr['events']:
+                if ev[0] != 'frame':
+                    continue
+                for frm, m in ev[1].rcv:
+                    if cls and m[0] == 'asset' and m[1] == cls and m[2] == key[1] and m[3].isdigit() and int(m[3]) not in pubs:
+                        return 'S7-asset-echo-after-overwrite'
+                    if key[0] == '0' and m[0] == 'mat' and m[1] == key[1] and ev[1].peer == 0 and frm.isdigit() and int(frm) not in pubs:
+                        return 'S7-asset-echo-after-overwrite'
         if key is not None:
             # S23: the host relays live asset traffic of a class it has disabled, but leaves the class out
             # of the snapshot it sends to later joiners
